@@ -734,9 +734,8 @@ Qed.
 Lemma unlex_cons t ts : unlex (t :: ts) = unlex1 t ++ unlex ts.
 Proof. reflexivity. Qed.
 
-Lemma is_letter_not_reserved c : is_letter c = true ->
-  c <> c_space /\ c <> c_comma /\ c <> c_dash /\ c <> c_dot /\ c <> c_gt.
-Proof. unfold is_letter, c_space, c_comma, c_dash, c_dot, c_gt. lia. Qed.
+Lemma is_letter_not_reserved c : is_letter c = true -> not_reserved c.
+Proof. unfold not_reserved, is_letter, c_space, c_comma, c_dash, c_dot, c_gt. lia. Qed.
 
 (* --- the lexer: numpy accepts  =>  the blank-free string is the rendering of the tokens --- *)
 Lemma np_lex_sound n : forall s ts, length s <= n -> np_lex s = Some ts ->
@@ -755,7 +754,7 @@ Proof.
       * destruct (is_letter x) eqn:E3.
         -- destruct (np_lex r) as [ts'|] eqn:L; [|discriminate]. cbn. intro H; inversion H; subst.
            destruct (IH r ts' ltac:(lia) L) as [S1 S2].
-           split; [rewrite unlex_cons; cbn; f_equal; exact S1|constructor; [exact E3|exact S2]].
+           split; [rewrite unlex_cons; cbn; f_equal; exact S1|constructor; [exact (is_letter_not_reserved x E3)|exact S2]].
         -- destruct r as [|y r']; [discriminate|].
            destruct (Nat.eqb x c_dash && Nat.eqb y c_gt) eqn:E4.
            ++ destruct (np_lex r') as [ts'|] eqn:L; [|discriminate]. cbn [ocons]. intro H; inversion H; subst.
@@ -794,7 +793,7 @@ Lemma split_arrow_unlex ts : Forall tok_ok ts ->
 Proof.
   induction 1 as [|t ts Ht Hts IH]; [reflexivity|].
   rewrite unlex_cons. destruct t as [c| | |]; cbn [unlex1 tsplit is_arrow app].
-  - destruct (is_letter_not_reserved c Ht) as [_ [_ [D _]]].
+  - destruct Ht as [_ [_ [D _]]].
     rewrite split_arrow_cons by exact D. rewrite IH.
     destruct (tsplit is_arrow ts) as [|h tl] eqn:E; [exfalso; eapply tsplit_nonempty; exact E|]. reflexivity.
   - rewrite !split_arrow_cons by (unfold c_dot, c_dash; lia). rewrite IH.
@@ -819,7 +818,7 @@ Proof.
   induction 1 as [|t ts Ht Hts IH]; intro Hna; [reflexivity|].
   inversion Hna as [|? ? Hn1 Hn2]; subst. specialize (IH Hn2).
   rewrite unlex_cons. destruct t as [c| | |]; cbn [unlex1 tsplit is_comma app split_char].
-  - destruct (is_letter_not_reserved c Ht) as [_ [D _]].
+  - destruct Ht as [_ [D _]].
     replace (Nat.eqb c c_comma) with false by (symmetry; apply Nat.eqb_neq; exact D).
     rewrite IH. destruct (tsplit is_comma ts) as [|h tl] eqn:E; [exfalso; eapply tsplit_nonempty; exact E|]. reflexivity.
   - cbn. rewrite IH. destruct (tsplit is_comma ts) as [|h tl] eqn:E; [exfalso; eapply tsplit_nonempty; exact E|]. reflexivity.
@@ -845,7 +844,7 @@ Proof.
   induction t as [|x t IH]; intros Ho Hk; [reflexivity|].
   destruct (only_labels_cons _ _ Ho) as [Hx Ho']. inversion Hk as [|? ? K1 K2]; subst.
   rewrite unlex_cons, count_app, n_ell_cons, (IH Ho' K2). destruct x as [c| | |]; try contradiction; cbn.
-  - destruct (is_letter_not_reserved c K1) as [_ [_ [_ [D _]]]].
+  - destruct K1 as [_ [_ [_ [D _]]]].
     replace (Nat.eqb c c_dot) with false by (symmetry; apply Nat.eqb_neq; exact D). lia.
   - lia.
 Qed.
@@ -860,7 +859,7 @@ Proof.
   induction t as [|x t IH]; intros Ho Hk Hn; [cbn in Hn; lia|].
   destruct (only_labels_cons _ _ Ho) as [Hx Ho']. inversion Hk as [|? ? K1 K2]; subst.
   rewrite unlex_cons. rewrite n_ell_cons in Hn. destruct x as [c| | |]; try contradiction; cbn [unlex1 app].
-  - destruct (is_letter_not_reserved c K1) as [_ [_ [_ [D _]]]].
+  - destruct K1 as [_ [_ [_ [D _]]]].
     rewrite has_ell_cons_other by exact D. apply IH; auto.
   - reflexivity.
 Qed.
@@ -895,7 +894,7 @@ Proof.
   destruct (only_labels_cons _ _ Ho) as [Hx Ho']. inversion Hk as [|? ? K1 K2]; subst.
   rewrite unlex_cons. unfold subst_toks. cbn [map concat]. fold (subst_toks rep t).
   destruct x as [c| | |]; try contradiction; cbn [unlex1 app].
-  - destruct (is_letter_not_reserved c K1) as [_ [_ [_ [D _]]]].
+  - destruct K1 as [_ [_ [_ [D _]]]].
     rewrite replace_ell_cons_other by exact D. rewrite IH; auto.
   - cbn [replace_ell]. unfold dots3. rewrite !Nat.eqb_refl. cbn. rewrite IH; auto.
 Qed.
@@ -1092,7 +1091,7 @@ Proof.
   induction 1 as [|t l Ht Hl IH]; [reflexivity|].
   rewrite unlex_cons, memb_app, IH. destruct t as [c| | |]; try reflexivity.
   change (memb c_dot (unlex1 (TL c))) with (Nat.eqb c_dot c || false).
-  destruct (is_letter_not_reserved c Ht) as [_ [_ [_ [D _]]]].
+  destruct Ht as [_ [_ [_ [D _]]]].
   replace (Nat.eqb c_dot c) with false by (symmetry; apply Nat.eqb_neq; intro; apply D; auto). reflexivity.
 Qed.
 
@@ -1146,7 +1145,7 @@ Proof.
   inversion Hlt as [|? ? L1 L2]; subst. specialize (IH L2).
   rewrite unlex_cons, filter_app, count_app, IH, letters_of_cons, count_app, n_ell_cons.
   destruct t as [c| | |]; cbn [unlex1 is_ell]; try contradiction.
-  - destruct (is_letter_not_reserved c Ht) as [_ [D1 [_ [D2 _]]]].
+  - destruct Ht as [_ [D1 [_ [D2 _]]]].
     cbn [filter]. replace (Nat.eqb c c_comma) with false by (symmetry; apply Nat.eqb_neq; exact D1).
     cbn [negb count]. destruct (Nat.eqb x c_dot) eqn:E; lia.
   - change (filter (fun c => negb (Nat.eqb c c_comma)) [c_dot; c_dot; c_dot]) with [c_dot; c_dot; c_dot].
@@ -1158,7 +1157,7 @@ Proof.
     change (count x []) with 0. destruct (Nat.eqb x c_dot); lia.
 Qed.
 
-Lemma letters_are_letters l : Forall tok_ok l -> forall c, In c (letters_of l) -> is_letter c = true.
+Lemma letters_are_letters l : Forall tok_ok l -> forall c, In c (letters_of l) -> not_reserved c.
 Proof.
   induction 1 as [|t l Ht Hl IH]; intros c Hc; [destruct Hc|].
   rewrite letters_of_cons in Hc. apply in_app_or in Hc. destruct Hc as [Hc|Hc]; [|apply IH; exact Hc].
@@ -1218,7 +1217,7 @@ Proof.
   destruct (Nat.eqb x c_dot) eqn:E; [|lia].
   apply Nat.eqb_eq in E. subst x.
   assert (count c_dot (letters_of l) = 0).
-  { apply count_zero. intro H. apply (letters_are_letters l Hk) in H. discriminate H. }
+  { apply count_zero. intro H. apply (letters_are_letters l Hk) in H. destruct H as [_ [_ [_ [D _]]]]. apply D. reflexivity. }
   lia.
 Qed.
 
@@ -1447,6 +1446,646 @@ Proof.
   - exfalso. apply (Hfresh c2); [|exact H2]. rewrite <- Heq. apply nth_In. lia.
   - f_equal. assert (length E - 1 - k1 = length E - 1 - k2); [|lia].
     apply (proj1 (NoDup_nth E 0) Hnd); [lia|lia|exact Heq].
+Qed.
+
+(* ================================================================== *)
+(* (3) the interleaved form                                            *)
+
+(* --- NumpySpec commutes with an injective renaming of the letters (explicit output) --- *)
+Definition tmap (tau : nat -> nat) (t : tok) : tok := match t with TL c => TL (tau c) | x => x end.
+Definition lmap (tau : nat -> nat) (l : lab) : lab := match l with LN c => LN (tau c) | x => x end.
+
+Lemma forallb_map' {A B} (f : B -> bool) (g : A -> B) l : forallb f (map g l) = forallb (fun x => f (g x)) l.
+Proof. induction l as [|x l IH]; cbn; [reflexivity|]. rewrite IH. reflexivity. Qed.
+Lemma forallb_ext' {A} (f g : A -> bool) l : (forall x, f x = g x) -> forallb f l = forallb g l.
+Proof. intro H. induction l as [|x l IH]; cbn; [reflexivity|]. rewrite H, IH. reflexivity. Qed.
+
+Lemma only_labels_tmap tau t : only_labels (map (tmap tau) t) = only_labels t.
+Proof. unfold only_labels. rewrite forallb_map'. apply forallb_ext'. intros [ | | | ]; reflexivity. Qed.
+Lemma n_ell_tmap tau t : n_ell (map (tmap tau) t) = n_ell t.
+Proof. induction t as [|x t IH]; [reflexivity|]. rewrite map_cons, !n_ell_cons, IH. destruct x; reflexivity. Qed.
+Lemma letters_of_tmap tau t : letters_of (map (tmap tau) t) = map tau (letters_of t).
+Proof.
+  induction t as [|x t IH]; [reflexivity|]. rewrite map_cons, !letters_of_cons, map_app, IH.
+  destruct x; reflexivity.
+Qed.
+Lemma expand_toks_tmap tau nb t : expand_toks nb (map (tmap tau) t) = map (lmap tau) (expand_toks nb t).
+Proof.
+  unfold expand_toks. rewrite map_map, concat_map, map_map. f_equal. apply map_ext.
+  intros [c| | |]; try reflexivity. cbn. unfold bdims. rewrite map_map. reflexivity.
+Qed.
+Lemma np_operands_nb_tmap tau ops : forall shapes,
+  np_operands_nb (map (map (tmap tau)) ops) shapes = np_operands_nb ops shapes.
+Proof.
+  induction ops as [|t ops IH]; intros [|s shapes]; cbn; try reflexivity.
+  rewrite IH. unfold np_operand_nb. rewrite n_ell_tmap, letters_of_tmap, map_length. reflexivity.
+Qed.
+
+Lemma memb_map_inj tau c l : (forall y, In y l -> tau y = tau c -> y = c) -> memb (tau c) (map tau l) = memb c l.
+Proof.
+  intro H. destruct (memb c l) eqn:E.
+  - apply memb_In. apply in_map. apply memb_In. exact E.
+  - apply memb_false. intro Hin. apply in_map_iff in Hin. destruct Hin as [y [E1 E2]].
+    apply memb_false in E. apply E. rewrite <- (H y E2 E1). exact E2.
+Qed.
+Lemma nodupb_map_inj tau l : (forall x y, In x l -> In y l -> tau x = tau y -> x = y) ->
+  nodupb (map tau l) = nodupb l.
+Proof.
+  induction l as [|a l IH]; intro H; [reflexivity|]. cbn [map nodupb].
+  rewrite IH by (intros; apply H; auto; right; assumption).
+  rewrite memb_map_inj; [reflexivity|]. intros y Hy E. apply H; [right; exact Hy|left; reflexivity|exact E].
+Qed.
+
+Lemma np_core_relabel tau ops o shapes nops nout :
+  (forall x y, In x (concat (map letters_of ops)) -> In y (concat (map letters_of ops)) -> tau x = tau y -> x = y) ->
+  np_core ops (Some o) shapes = Some (nops, nout) ->
+  np_core (map (map (tmap tau)) ops) (Some (map (tmap tau) o)) shapes =
+  Some (map (map (lmap tau)) nops, map (lmap tau) nout).
+Proof.
+  intro Hinj. unfold np_core.
+  rewrite forallb_map'. rewrite (forallb_ext' (fun x => only_labels (map (tmap tau) x)) only_labels) by (intro; apply only_labels_tmap).
+  destruct (negb (forallb only_labels ops)); [discriminate|].
+  rewrite only_labels_tmap. destruct (negb (only_labels o)); [discriminate|].
+  rewrite np_operands_nb_tmap. destruct (np_operands_nb ops shapes) as [nbs|]; [|discriminate].
+  set (N := fold_left Nat.max nbs 0). set (all := concat (map letters_of ops)) in *.
+  assert (Hall : concat (map letters_of (map (map (tmap tau)) ops)) = map tau all).
+  { unfold all. rewrite map_map, concat_map, map_map. f_equal. apply map_ext. intro; apply letters_of_tmap. }
+  rewrite Hall. unfold np_output. rewrite letters_of_tmap, n_ell_tmap.
+  destruct (nodupb (letters_of o)) eqn:E1; [|discriminate]. cbn [negb].
+  destruct (forallb (fun c => memb c all) (letters_of o)) eqn:E2; [|discriminate]. cbn [negb].
+  assert (Hsub : forall c, In c (letters_of o) -> In c all).
+  { intros c Hc. rewrite forallb_forall in E2. apply memb_In. apply E2. exact Hc. }
+  rewrite nodupb_map_inj, E1 by (intros; apply Hinj; auto). cbn [negb].
+  rewrite forallb_map'.
+  assert (E2' : forallb (fun x => memb (tau x) (map tau all)) (letters_of o) = true).
+  { apply forallb_forall. intros c Hc. apply memb_In. apply in_map. apply Hsub. exact Hc. }
+  rewrite E2'. cbn [negb].
+  assert (Hops : map (fun tn => expand_toks (snd tn) (fst tn)) (combine (map (map (tmap tau)) ops) nbs) =
+                 map (map (lmap tau)) (map (fun tn => expand_toks (snd tn) (fst tn)) (combine ops nbs))).
+  { clear. revert nbs. induction ops as [|t ops IH]; intros [|nb nbs]; cbn [map combine fst snd]; try reflexivity.
+    rewrite expand_toks_tmap, IH. reflexivity. }
+  rewrite Hops.
+  destruct (n_ell o) as [|[|k]].
+  - destruct (Nat.eqb N 0); [|discriminate]. intro H; inversion H; subst. rewrite expand_toks_tmap. reflexivity.
+  - intro H; inversion H; subst. rewrite expand_toks_tmap. reflexivity.
+  - discriminate.
+Qed.
+
+(* --- NumpySpec: the implicit output, made explicit --- *)
+Definition explicit_of_implicit (ops : list (list tok)) : list tok :=
+  (if existsb (existsb is_ell) ops then [TEll] else []) ++ map TL (once_sorted (concat (map letters_of ops))).
+
+Lemma letters_of_map_TL l : letters_of (map TL l) = l.
+Proof. induction l as [|x l IH]; [reflexivity|]. rewrite map_cons, letters_of_cons, IH. reflexivity. Qed.
+Lemma n_ell_map_TL l : n_ell (map TL l) = 0.
+Proof. induction l as [|x l IH]; [reflexivity|]. rewrite map_cons, n_ell_cons, IH. reflexivity. Qed.
+Lemma only_labels_map_TL l : only_labels (map TL l) = true.
+Proof. unfold only_labels. rewrite forallb_map'. apply forallb_forall. reflexivity. Qed.
+Lemma expand_toks_map_TL nb l : expand_toks nb (map TL l) = map LN l.
+Proof. unfold expand_toks. induction l as [|x l IH]; [reflexivity|]. cbn [map concat]. rewrite IH. reflexivity. Qed.
+
+Lemma nodupb_NoDup l : NoDup l -> nodupb l = true.
+Proof.
+  induction 1 as [|x l Hn Hnd IH]; [reflexivity|]. cbn. rewrite IH, andb_true_r.
+  apply negb_true_iff. apply memb_false. exact Hn.
+Qed.
+Lemma sorted_lt_nodup l : StronglySorted lt l -> NoDup l.
+Proof.
+  induction 1 as [|a l Hs IH Hall]; constructor; [|exact IH].
+  intro H. rewrite Forall_forall in Hall. specialize (Hall a H). lia.
+Qed.
+
+Lemma np_operands_nb_noell ops : forall shapes nbs, np_operands_nb ops shapes = Some nbs ->
+  (forall t, In t ops -> n_ell t = 0) -> forall nb, In nb nbs -> nb = 0.
+Proof.
+  induction ops as [|t ops IH]; intros [|s shapes] nbs; cbn [np_operands_nb]; try discriminate.
+  - intro H; inversion H; subst. intros _ nb [].
+  - destruct (np_operand_nb t (length s)) as [n|] eqn:E1; [|discriminate].
+    destruct (np_operands_nb ops shapes) as [ns|] eqn:E2; [|discriminate].
+    intro H; inversion H; subst. intros Hz nb [<-|Hin].
+    + destruct (np_operand_nb_spec _ _ _ E1) as [[_ [B _]]|[A _]]; [exact B|].
+      rewrite (Hz t (or_introl eq_refl)) in A. discriminate.
+    + eapply IH; eauto. intros; apply Hz; right; assumption.
+Qed.
+
+Lemma np_core_implicit_explicit ops shapes nops nout :
+  np_core ops None shapes = Some (nops, nout) ->
+  np_core ops (Some (explicit_of_implicit ops)) shapes = Some (nops, nout).
+Proof.
+  unfold np_core. destruct (negb (forallb only_labels ops)); [discriminate|]. cbn [negb].
+  set (all := concat (map letters_of ops)).
+  set (has := existsb (existsb is_ell) ops).
+  assert (Ho : only_labels (explicit_of_implicit ops) = true).
+  { unfold explicit_of_implicit. fold all has. unfold only_labels. rewrite forallb_app.
+    fold (only_labels (map TL (once_sorted all))). rewrite only_labels_map_TL. destruct has; reflexivity. }
+  rewrite Ho. cbn [negb].
+  destruct (np_operands_nb ops shapes) as [nbs|] eqn:Enb; [|discriminate].
+  set (N := fold_left Nat.max nbs 0).
+  unfold np_output. fold (once_sorted all).
+  assert (HL : letters_of (explicit_of_implicit ops) = once_sorted all).
+  { unfold explicit_of_implicit. fold all has. unfold letters_of. rewrite map_app, concat_app.
+    fold (letters_of (map TL (once_sorted all))). rewrite letters_of_map_TL. destruct has; reflexivity. }
+  assert (HE : n_ell (explicit_of_implicit ops) = if has then 1 else 0).
+  { unfold explicit_of_implicit. fold all has. unfold n_ell. rewrite filter_app, app_length.
+    fold (n_ell (map TL (once_sorted all))). rewrite n_ell_map_TL. destruct has; reflexivity. }
+  rewrite HL, HE.
+  rewrite nodupb_NoDup by (apply sorted_lt_nodup, once_sorted_sorted). cbn [negb].
+  assert (Hm : forallb (fun c => memb c all) (once_sorted all) = true).
+  { apply forallb_forall. intros c Hc. apply once_sorted_in in Hc. apply memb_In. apply count_pos. lia. }
+  rewrite Hm. cbn [negb].
+  intro H; inversion H; subst nops nout. clear H.
+  unfold explicit_of_implicit. fold all has.
+  destruct has eqn:Ehas.
+  - do 2 f_equal. unfold expand_toks. cbn [map concat app].
+    fold (expand_toks N (map TL (once_sorted all))). rewrite expand_toks_map_TL. reflexivity.
+  - assert (HN : N = 0).
+    { apply fold_max_zero. intros nb Hnb. eapply np_operands_nb_noell; eauto.
+      apply existsb_ell_ops_false. exact Ehas. }
+    rewrite HN. cbn [Nat.eqb app]. rewrite expand_toks_map_TL. reflexivity.
+Qed.
+
+(* --- the model side: get_symbol_map and convert_from_interleaved --- *)
+Lemma ilab_eqb_eq a b : ilab_eqb a b = true <-> a = b.
+Proof.
+  destruct a, b; cbn; try (split; discriminate); [|tauto].
+  rewrite Nat.eqb_eq. split; [intros ->; reflexivity|intro H; inversion H; reflexivity].
+Qed.
+Lemma sm_get_in m x v : sm_get m x = Some v -> In (x, v) m.
+Proof.
+  induction m as [|[k w] m IH]; cbn; [discriminate|].
+  destruct (ilab_eqb k x) eqn:E.
+  - intro H; inversion H; subst. apply ilab_eqb_eq in E. subst. left; reflexivity.
+  - intro H. right. apply IH. exact H.
+Qed.
+Lemma sm_get_none m x : sm_get m x = None <-> ~ In x (map fst m).
+Proof.
+  induction m as [|[k w] m IH]; cbn; [tauto|].
+  destruct (ilab_eqb k x) eqn:E.
+  - apply ilab_eqb_eq in E. split; [discriminate|]. intro H; exfalso; apply H; left; exact E.
+  - rewrite IH. split; [|tauto]. intros H [H1|H1]; [|auto]. subst. 
+    assert (ilab_eqb x x = true) by (apply ilab_eqb_eq; reflexivity). congruence.
+Qed.
+
+Lemma sm_step_inv m c x m' c' : sm_wf m c -> sm_step (m, c) x = (m', c') ->
+  sm_wf m' c' /\ (forall y, In y (map fst m') <-> In y (map fst m) \/ y = x).
+Proof.
+  intros [W1 [W2 W3]]. unfold sm_step. destruct (sm_get m x) as [v|] eqn:G.
+  - intro H; inversion H; subst. split; [repeat split; assumption|].
+    intro y. split; [auto|]. intros [Hy| ->]; [exact Hy|].
+    apply sm_get_in in G. apply in_map_iff. exists (x, v). auto.
+  - apply sm_get_none in G. destruct x as [k|].
+    + intro H; inversion H; subst. split; [split; [|split]|].
+      * rewrite map_app. apply NoDup_snoc; assumption.
+      * intros y v Hin. apply in_app_or in Hin. destruct Hin as [Hin|[Hin|[]]].
+        -- specialize (W2 y v Hin). destruct y; [|exact W2]. destruct W2 as [i [Hi E]]. exists i. split; [lia|exact E].
+        -- inversion Hin; subst. exists c. split; [lia|reflexivity].
+      * intros k1 k2 i H1 H2. apply in_app_or in H1. apply in_app_or in H2.
+        destruct H1 as [H1|[H1|[]]], H2 as [H2|[H2|[]]].
+        -- eapply W3; eassumption.
+        -- injection H2 as Hk Hs. apply get_symbol_inj in Hs. destruct (W2 _ _ H1) as [j [Hj E]].
+           injection E as E'. apply get_symbol_inj in E'. lia.
+        -- injection H1 as Hk Hs. apply get_symbol_inj in Hs. destruct (W2 _ _ H2) as [j [Hj E]].
+           injection E as E'. apply get_symbol_inj in E'. lia.
+        -- injection H1 as Hk1 _. injection H2 as Hk2 _. congruence.
+      * intro y. rewrite map_app, in_app_iff. cbn. intuition.
+    + intro H; inversion H; subst. split; [split; [|split]|].
+      * rewrite map_app. apply NoDup_snoc; assumption.
+      * intros y v Hin. apply in_app_or in Hin. destruct Hin as [Hin|[Hin|[]]]; [apply W2; exact Hin|].
+        inversion Hin; subst. reflexivity.
+      * intros k1 k2 i H1 H2. apply in_app_or in H1. apply in_app_or in H2.
+        destruct H1 as [H1|[H1|[]]]; [|discriminate H1]. destruct H2 as [H2|[H2|[]]]; [|discriminate H2].
+        eapply W3; eassumption.
+      * intro y. rewrite map_app, in_app_iff. cbn. intuition.
+Qed.
+
+Lemma sm_fold_inv flat : forall m c, sm_wf m c ->
+  sm_wf (fst (fold_left sm_step flat (m, c))) (snd (fold_left sm_step flat (m, c))) /\
+  (forall y, In y (map fst (fst (fold_left sm_step flat (m, c)))) <-> In y (map fst m) \/ In y flat).
+Proof.
+  induction flat as [|x flat IH]; intros m c W; cbn [fold_left].
+  - split; [exact W|]. intro y. cbn. tauto.
+  - destruct (sm_step (m, c) x) as [m1 c1] eqn:S.
+    destruct (sm_step_inv _ _ _ _ _ W S) as [W1 K1].
+    destruct (IH m1 c1 W1) as [W2 K2]. split; [exact W2|].
+    intro y. rewrite K2, K1. cbn. intuition.
+Qed.
+
+Lemma fold_left_concat {A B} (f : A -> B -> A) (ls : list (list B)) : forall a,
+  fold_left (fun st t => fold_left f t st) ls a = fold_left f (concat ls) a.
+Proof. induction ls as [|l ls IH]; intro a; cbn; [reflexivity|]. rewrite fold_left_app. apply IH. Qed.
+
+Lemma get_symbol_map_spec inputs :
+  exists c, sm_wf (get_symbol_map inputs) c /\
+  (forall y, In y (map fst (get_symbol_map inputs)) <-> In y (concat inputs)).
+Proof.
+  unfold get_symbol_map. rewrite fold_left_concat.
+  assert (W0 : sm_wf [] 0) by (split; [constructor|split; [intros ? ? []|intros ? ? ? []]]).
+  destruct (sm_fold_inv (concat inputs) [] 0 W0) as [W K].
+  eexists. split; [exact W|]. intro y. rewrite K. cbn. tauto.
+Qed.
+
+Definition mtok (m : list (ilab * str)) (x : ilab) : tok :=
+  match x with IL k => TL (sigma m k) | IE => TEll end.
+
+Lemma sm_term_unlex m c term : sm_wf m c -> (forall x, In x term -> In x (map fst m)) ->
+  sm_term m term = Some (unlex (map (mtok m) term)).
+Proof.
+  intros [W1 [W2 W3]]. induction term as [|x r IH]; intro Hin; [reflexivity|].
+  cbn [sm_term map]. rewrite IH by (intros; apply Hin; right; assumption).
+  destruct (sm_get m x) as [v|] eqn:G; [|apply sm_get_none in G; exfalso; apply G, Hin; left; reflexivity].
+  rewrite unlex_cons. do 2 f_equal. pose proof (W2 _ _ (sm_get_in _ _ _ G)) as Hv.
+  destruct x as [k|]; cbn [mtok unlex1].
+  - destruct Hv as [i [_ ->]]. unfold sigma. rewrite G. reflexivity.
+  - exact Hv.
+Qed.
+Lemma sm_terms_unlex m c terms : sm_wf m c -> (forall x, In x (concat terms) -> In x (map fst m)) ->
+  sm_terms m terms = Some (map unlex (map (map (mtok m)) terms)).
+Proof.
+  intro W. induction terms as [|t r IH]; intro Hin; [reflexivity|].
+  cbn [sm_terms map]. rewrite (sm_term_unlex m c t W) by (intros; apply Hin; cbn; apply in_or_app; left; assumption).
+  rewrite IH by (intros; apply Hin; cbn; apply in_or_app; right; assumption). reflexivity.
+Qed.
+
+Lemma mtok_ok m c x : sm_wf m c -> In x (map fst m) -> tok_ok (mtok m x).
+Proof.
+  intros [W1 [W2 W3]] Hin. destruct x as [k|]; [|exact I]. cbn. unfold sigma.
+  destruct (sm_get m (IL k)) as [v|] eqn:G; [|apply sm_get_none in G; contradiction].
+  destruct (W2 _ _ (sm_get_in _ _ _ G)) as [i [_ ->]].
+  destruct (get_symbol_not_reserved i) as [A [B [C [D E]]]]. repeat split; assumption.
+Qed.
+Lemma sigma_inj m c k1 k2 : sm_wf m c -> In (IL k1) (map fst m) -> In (IL k2) (map fst m) ->
+  sigma m k1 = sigma m k2 -> k1 = k2.
+Proof.
+  intros [W1 [W2 W3]] H1 H2. unfold sigma.
+  destruct (sm_get m (IL k1)) as [v1|] eqn:G1; [|apply sm_get_none in G1; contradiction].
+  destruct (sm_get m (IL k2)) as [v2|] eqn:G2; [|apply sm_get_none in G2; contradiction].
+  apply sm_get_in in G1, G2.
+  destruct (W2 _ _ G1) as [i1 [_ E1]]. destruct (W2 _ _ G2) as [i2 [_ E2]]. subst v1 v2.
+  intro E. rewrite E in G1. eapply W3; eassumption.
+Qed.
+
+Lemma get_symbol_map_injective inputs : exists c,
+  sm_wf (get_symbol_map inputs) c /\
+  (forall y, In y (map fst (get_symbol_map inputs)) <-> In y (concat inputs)) /\
+  (forall k1 k2, In (IL k1) (concat inputs) -> In (IL k2) (concat inputs) ->
+     sigma (get_symbol_map inputs) k1 = sigma (get_symbol_map inputs) k2 -> k1 = k2).
+Proof.
+  destruct (get_symbol_map_spec inputs) as [c [W K]]. exists c. split; [exact W|]. split; [exact K|].
+  intros k1 k2 H1 H2. apply (sigma_inj _ c); auto; apply K; assumption.
+Qed.
+
+(* token-level join *)
+Fixpoint tjoin (ps : list (list tok)) : list tok :=
+  match ps with
+  | [] => []
+  | [p] => p
+  | p :: rest => p ++ TComma :: tjoin rest
+  end.
+Lemma unlex_app a b : unlex (a ++ b) = unlex a ++ unlex b.
+Proof. unfold unlex. rewrite map_app, concat_app. reflexivity. Qed.
+Lemma unlex_tjoin ps : unlex (tjoin ps) = join [c_comma] (map unlex ps).
+Proof.
+  induction ps as [|p [|q r] IH]; [reflexivity|reflexivity|].
+  change (tjoin (p :: q :: r)) with (p ++ TComma :: tjoin (q :: r)).
+  rewrite unlex_app, unlex_cons, IH. reflexivity.
+Qed.
+Lemma tsplit_app_sep sep p rest : (forall t, In t p -> sep t = false) -> forall s, sep s = true ->
+  tsplit sep (p ++ s :: rest) = p :: tsplit sep rest.
+Proof.
+  intros Hp s Hs. induction p as [|x p IH]; cbn [app tsplit]; [rewrite Hs; reflexivity|].
+  rewrite (Hp x (or_introl eq_refl)). rewrite IH by (intros; apply Hp; right; assumption). reflexivity.
+Qed.
+Lemma tsplit_nosep sep p : (forall t, In t p -> sep t = false) -> tsplit sep p = [p].
+Proof.
+  intro Hp. induction p as [|x p IH]; [reflexivity|]. cbn [tsplit].
+  rewrite (Hp x (or_introl eq_refl)). rewrite IH by (intros; apply Hp; right; assumption). reflexivity.
+Qed.
+Lemma tsplit_tjoin ps : ps <> [] -> (forall p t, In p ps -> In t p -> is_comma t = false) ->
+  tsplit is_comma (tjoin ps) = ps.
+Proof.
+  induction ps as [|p [|q r] IH]; intros Hne Hc; [contradiction| |].
+  - cbn [tjoin]. apply tsplit_nosep. intros; eapply Hc; [left; reflexivity|assumption].
+  - change (tjoin (p :: q :: r)) with (p ++ TComma :: tjoin (q :: r)).
+    rewrite tsplit_app_sep; [|intros; eapply Hc; [left; reflexivity|assumption]|reflexivity].
+    rewrite IH; [reflexivity|discriminate|]. intros; eapply Hc; [right; eassumption|assumption].
+Qed.
+
+(* --- numpy's tokens of a sublist; the computed output sublist is numpy's implicit output --- *)
+Definition letter (k : nat) : nat := if k <? 26 then 65 + k else 97 + (k - 26).
+Definition nt (x : ilab) : tok := match x with IE => TEll | IL k => TL (letter k) end.
+Definition labels_ok (l : list ilab) : Prop := forall k, In (IL k) l -> k < 52.
+
+Lemma np_sublist_spec l ts : np_sublist l = Some ts -> ts = map nt l /\ labels_ok l.
+Proof.
+  revert ts. induction l as [|x l IH]; intros ts; cbn [np_sublist].
+  - intro H; inversion H; subst. split; [reflexivity|intros k []].
+  - destruct (np_ilab x) as [t|] eqn:E1; [|discriminate]. destruct (np_sublist l) as [ts'|] eqn:E2; [|discriminate].
+    intro H; inversion H; subst. destruct (IH ts' eq_refl) as [-> L].
+    destruct x as [k|].
+    + unfold np_ilab in E1. destruct (k <? 26) eqn:A.
+      * injection E1 as <-. split; [cbn [map nt]; unfold letter; rewrite A; reflexivity|].
+        intros j [Hj|Hj]; [injection Hj as <-; lia|apply L; exact Hj].
+      * destruct (k <? 52) eqn:B; [|discriminate]. injection E1 as <-.
+        split; [cbn [map nt]; unfold letter; rewrite A; reflexivity|].
+        intros j [Hj|Hj]; [injection Hj as <-; lia|apply L; exact Hj].
+    + injection E1 as <-. split; [reflexivity|]. intros j [Hj|Hj]; [discriminate|apply L; exact Hj].
+Qed.
+Lemma np_sublist_complete l : labels_ok l -> np_sublist l = Some (map nt l).
+Proof.
+  induction l as [|x l IH]; intro L; [reflexivity|]. cbn [np_sublist map].
+  rewrite IH by (intros k Hk; apply L; right; exact Hk).
+  destruct x as [k|]; [|reflexivity]. assert (k < 52) by (apply L; left; reflexivity).
+  unfold np_ilab, nt, letter. destruct (k <? 26); [reflexivity|]. replace (k <? 52) with true by lia. reflexivity.
+Qed.
+Lemma np_sublists_spec ls tss : np_sublists ls = Some tss -> tss = map (map nt) ls /\ labels_ok (concat ls).
+Proof.
+  revert tss. induction ls as [|l ls IH]; intros tss; cbn [np_sublists].
+  - intro H; inversion H; subst. split; [reflexivity|intros k []].
+  - destruct (np_sublist l) as [t|] eqn:E1; [|discriminate]. destruct (np_sublists ls) as [ts'|] eqn:E2; [|discriminate].
+    intro H; inversion H; subst. destruct (IH ts' eq_refl) as [-> L]. destruct (np_sublist_spec _ _ E1) as [-> L1].
+    split; [reflexivity|]. intros k Hk. cbn in Hk. apply in_app_or in Hk. destruct Hk; [apply L1|apply L]; assumption.
+Qed.
+
+Lemma letter_mono k1 k2 : k1 < k2 -> k2 < 52 -> letter k1 < letter k2.
+Proof. unfold letter. intros. destruct (k1 <? 26) eqn:A, (k2 <? 26) eqn:B; lia. Qed.
+Lemma letter_inj k1 k2 : k1 < 52 -> k2 < 52 -> letter k1 = letter k2 -> k1 = k2.
+Proof.
+  intros H1 H2 E. destruct (Nat.lt_trichotomy k1 k2) as [H|[H|H]]; [|exact H|].
+  - pose proof (letter_mono k1 k2 H H2). lia.
+  - pose proof (letter_mono k2 k1 H H1). lia.
+Qed.
+
+Lemma letters_of_app a b : letters_of (a ++ b) = letters_of a ++ letters_of b.
+Proof. unfold letters_of. rewrite map_app, concat_app. reflexivity. Qed.
+Lemma letters_of_concat ls : concat (map letters_of ls) = letters_of (concat ls).
+Proof. induction ls as [|l ls IH]; [reflexivity|]. cbn [map concat]. rewrite letters_of_app, IH. reflexivity. Qed.
+
+(* occurrences of a label = occurrences of its letter *)
+Lemma count_letter_enc l k : labels_ok l -> k < 52 ->
+  count (letter k) (letters_of (map nt l)) = count (S k) (map ilab_enc l).
+Proof.
+  intros L Hk. induction l as [|x l IH]; [reflexivity|].
+  cbn [map]. rewrite letters_of_cons. rewrite count_app.
+  rewrite IH by (intros j Hj; apply L; right; exact Hj).
+  destruct x as [j|]; cbn [nt ilab_enc count app].
+  - assert (j < 52) by (apply L; left; reflexivity).
+    destruct (Nat.eqb j k) eqn:E.
+    + apply Nat.eqb_eq in E. subst. rewrite !Nat.eqb_refl. reflexivity.
+    + apply Nat.eqb_neq in E.
+      replace (Nat.eqb (letter j) (letter k)) with false
+        by (symmetry; apply Nat.eqb_neq; intro F; apply E; apply letter_inj; auto).
+      replace (Nat.eqb (S j) (S k)) with false by (symmetry; apply Nat.eqb_neq; lia). reflexivity.
+  - reflexivity.
+Qed.
+Lemma in_letters_nt l c : In c (letters_of (map nt l)) -> exists k, c = letter k /\ In (IL k) l.
+Proof.
+  induction l as [|x l IH]; [intros []|]. cbn [map]. rewrite letters_of_cons. intro H.
+  apply in_app_or in H. destruct H as [H|H].
+  - destruct x as [k|]; cbn in H; [|contradiction]. destruct H as [<-|[]]. exists k. split; [reflexivity|left; reflexivity].
+  - destruct (IH H) as [k [E Hk]]. exists k. split; [exact E|right; exact Hk].
+Qed.
+Lemma in_enc l n : In n (map ilab_enc l) -> n <> 0 -> exists k, n = S k /\ In (IL k) l.
+Proof.
+  intros H Hn. apply in_map_iff in H. destruct H as [x [E Hx]]. destruct x as [k|]; cbn in E; [|lia].
+  exists k. split; [lia|exact Hx].
+Qed.
+
+Lemma nodup_count l : (forall x, count x l <= 1) -> NoDup l.
+Proof.
+  induction l as [|a l IH]; intro H; constructor.
+  - intro Hin. apply count_pos in Hin. specialize (H a). cbn in H. rewrite Nat.eqb_refl in H. lia.
+  - apply IH. intro x. specialize (H x). cbn in H. lia.
+Qed.
+Lemma once_first_seen_nodup l : NoDup (once_first_seen l).
+Proof.
+  apply nodup_count. intro x. unfold once_first_seen. rewrite count_filter.
+  destruct (Nat.eqb (count x l) 1) eqn:E; [apply Nat.eqb_eq in E|]; lia.
+Qed.
+
+Lemma sorted_map_mono (g : nat -> nat) l : StronglySorted lt l ->
+  (forall a b, In a l -> In b l -> a < b -> g a < g b) -> StronglySorted lt (map g l).
+Proof.
+  induction 1 as [|a l Hs IH Hall]; intro Hg; cbn; constructor.
+  - apply IH. intros; apply Hg; auto; right; assumption.
+  - rewrite Forall_forall in *. intros y Hy. apply in_map_iff in Hy. destruct Hy as [b [<- Hb]].
+    apply Hg; [left; reflexivity|right; exact Hb|apply Hall; exact Hb].
+Qed.
+
+Lemma existsb_ell_nt inputs :
+  existsb (existsb is_ell) (map (map nt) inputs) = existsb (existsb (ilab_eqb IE)) inputs.
+Proof.
+  induction inputs as [|t r IH]; [reflexivity|]. cbn [map existsb]. rewrite IH. f_equal.
+  induction t as [|x t IHt]; [reflexivity|]. cbn [map existsb]. rewrite IHt. destruct x; reflexivity.
+Qed.
+
+Lemma computed_output_is_numpys inputs : labels_ok (concat inputs) ->
+  map nt (interleaved_sorted_output inputs) = explicit_of_implicit (map (map nt) inputs).
+Proof.
+  intro L. unfold interleaved_sorted_output, explicit_of_implicit.
+  rewrite existsb_ell_nt, !map_app. f_equal; [destruct (existsb _ inputs); reflexivity|].
+  rewrite find_output_from_inputs_spec, <- concat_map.
+  set (l := concat inputs) in *. set (flat := map ilab_enc l).
+  set (named := sort_nat (filter (fun n => negb (Nat.eqb n 0)) (once_first_seen flat))).
+  rewrite letters_of_concat, <- concat_map. fold l.
+  set (all := letters_of (map nt l)).
+  assert (Hin : forall n, In n named <-> n <> 0 /\ count n flat = 1).
+  { intro n. unfold named. rewrite sort_nat_in, filter_In. unfold once_first_seen. rewrite filter_In.
+    rewrite negb_true_iff, Nat.eqb_neq, Nat.eqb_eq. split; [tauto|]. intros [A B]. repeat split; auto.
+    apply count_pos. lia. }
+  assert (Hk : forall n, In n named -> exists k, n = S k /\ In (IL k) l /\ k < 52).
+  { intros n Hn. apply Hin in Hn. destruct Hn as [A B].
+    destruct (in_enc l n) as [k [E Hk]]; [apply count_pos; fold flat; lia|exact A|].
+    exists k. repeat split; auto. }
+  assert (Hs : StronglySorted lt named).
+  { unfold named. apply sorted_le_nodup_lt; [apply sort_nat_sorted|].
+    eapply Permutation_NoDup; [symmetry; apply sort_nat_perm|]. apply NoDup_filter, once_first_seen_nodup. }
+  (* the two lists of tokens are TL of the same strictly increasing list of letters *)
+  assert (E : map (fun n => letter (n - 1)) named = once_sorted all).
+  { apply sorted_lt_unique.
+    - apply sorted_map_mono; [exact Hs|]. intros a b Ha Hb Hab.
+      destruct (Hk a Ha) as [ka [-> [_ Hka]]]. destruct (Hk b Hb) as [kb [-> [_ Hkb]]].
+      cbn. rewrite !Nat.sub_0_r. apply letter_mono; lia.
+    - apply once_sorted_sorted.
+    - intro c. rewrite once_sorted_in, in_map_iff. split.
+      + intros [n [<- Hn]]. destruct (Hk n Hn) as [k [-> [Hkl Hk52]]]. cbn. rewrite Nat.sub_0_r.
+        unfold all. rewrite (count_letter_enc l k L Hk52). apply Hin in Hn. fold flat. tauto.
+      + intro Hc. assert (Hca : In c all) by (apply count_pos; lia).
+        destruct (in_letters_nt l c Hca) as [k [-> Hkl]]. assert (Hk52 : k < 52) by (apply L; exact Hkl).
+        exists (S k). split; [cbn; rewrite Nat.sub_0_r; reflexivity|]. apply Hin. split; [lia|].
+        unfold all in Hc. rewrite (count_letter_enc l k L Hk52) in Hc. exact Hc. }
+  rewrite <- E. rewrite !map_map. apply map_ext_in. intros n Hn.
+  destruct (Hk n Hn) as [k [-> _]]. cbn. rewrite Nat.sub_0_r. reflexivity.
+Qed.
+
+(* --- assembling the interleaved theorem --- *)
+Definition decode_letter (c : nat) : nat := if c <? 97 then c - 65 else c - 97 + 26.
+Lemma decode_letter_letter k : k < 52 -> decode_letter (letter k) = k.
+Proof. unfold decode_letter, letter. intro H. destruct (k <? 26) eqn:A; [replace (65 + k <? 97) with true by lia|replace (97 + (k - 26) <? 97) with false by lia]; lia. Qed.
+Lemma letter_eq_bounded k k' : k' < 52 -> letter k = letter k' -> k = k'.
+Proof.
+  intros H' E. destruct (Nat.lt_ge_cases k 52) as [H|H]; [apply letter_inj; assumption|].
+  exfalso. unfold letter in E. destruct (k <? 26) eqn:A; [lia|]. destruct (k' <? 26) eqn:B; lia.
+Qed.
+
+Lemma tau_is_sigma inputs k : k < 52 ->
+  inter_letter_to_sym inputs (letter k) = sigma (get_symbol_map inputs) k.
+Proof.
+  intro H. unfold inter_letter_to_sym, sigma. fold (decode_letter (letter k)).
+  rewrite decode_letter_letter by exact H. reflexivity.
+Qed.
+Lemma mtok_is_tmap inputs l : labels_ok l ->
+  map (mtok (get_symbol_map inputs)) l = map (tmap (inter_letter_to_sym inputs)) (map nt l).
+Proof.
+  intro L. rewrite map_map. apply map_ext_in. intros [k|] Hx; [|reflexivity].
+  cbn [nt tmap mtok]. rewrite tau_is_sigma by (apply L; exact Hx). reflexivity.
+Qed.
+
+Lemma np_core_output_letters ops o shapes r : np_core ops (Some o) shapes = Some r ->
+  forall c, In c (letters_of o) -> In c (concat (map letters_of ops)).
+Proof.
+  unfold np_core. destruct (negb (forallb only_labels ops)); [discriminate|].
+  destruct (negb (only_labels o)); [discriminate|].
+  destruct (np_operands_nb ops shapes); [|discriminate].
+  unfold np_output. destruct (negb (nodupb (letters_of o))); [discriminate|].
+  destruct (forallb (fun c => memb c (concat (map letters_of ops))) (letters_of o)) eqn:E; [|discriminate].
+  intros _ c Hc. rewrite forallb_forall in E. apply memb_In. apply E. exact Hc.
+Qed.
+
+Lemma in_letters_of_nt l k : In (IL k) l -> In (letter k) (letters_of (map nt l)).
+Proof.
+  induction l as [|x l IH]; [intros []|]. cbn [map]. rewrite letters_of_cons. intros [->|H]; apply in_or_app.
+  - left. left. reflexivity.
+  - right. apply IH. exact H.
+Qed.
+
+Lemma existsb_IE_in inputs : existsb (existsb (ilab_eqb IE)) inputs = true -> In IE (concat inputs).
+Proof.
+  intro H. apply existsb_exists in H. destruct H as [t [Ht H]]. apply existsb_exists in H.
+  destruct H as [x [Hx E]]. apply ilab_eqb_eq in E. subst x. apply in_concat. eauto.
+Qed.
+Lemma IE_in_computed_output inputs : In IE (interleaved_sorted_output inputs) -> In IE (concat inputs).
+Proof.
+  unfold interleaved_sorted_output. intro H. apply in_map_iff in H. destruct H as [n [E Hn]].
+  destruct n; [|discriminate]. apply in_app_or in Hn. destruct Hn as [Hn|Hn].
+  - destruct (existsb (existsb (ilab_eqb IE)) inputs) eqn:B; [apply existsb_IE_in; exact B|destruct Hn].
+  - apply (proj1 (sort_nat_in _ _)) in Hn. apply filter_In in Hn. destruct Hn as [_ Hn]. discriminate.
+Qed.
+
+Lemma rho_args_inter ops out E l :
+  rho_args (AInter ops out) E l = rho E (lmap (inter_letter_to_sym (map snd ops)) l).
+Proof. destruct l; reflexivity. Qed.
+
+Lemma mtok_not_sep m x : is_arrow (mtok m x) = false /\ is_comma (mtok m x) = false.
+Proof. destruct x; split; reflexivity. Qed.
+
+Theorem inter_matches_numpy ops out nops nout :
+  np_parse_inter ops out = Some (nops, nout) ->
+  (match out with Some o => In IE o -> In IE (concat (map snd ops)) | None => True end) ->
+  exists eq, convert_from_interleaved_v true (map snd ops) out = Some eq /\
+    let E := model_ellipses_inds eq (map fst ops) in
+    let r := rho_args (AInter ops out) E in
+    parse_equation_ellipses_v true eq (map fst ops) = Some (map (map r) nops, map r nout).
+Proof.
+  unfold np_parse_inter. destruct (Nat.eqb (length ops) 0) eqn:Elen; [discriminate|].
+  apply Nat.eqb_neq in Elen.
+  set (inputs := map snd ops). set (shapes := map fst ops).
+  destruct (np_sublists inputs) as [nts|] eqn:Ens; [|discriminate].
+  destruct (np_sublists_spec _ _ Ens) as [-> L].
+  (* the effective output sublist and numpy's verdict on it *)
+  intros Hnp HIE.
+  assert (Heff : exists o_eff,
+    (match out with Some o => Some o | None => Some (interleaved_sorted_output inputs) end) = Some o_eff /\
+    np_core (map (map nt) inputs) (Some (map nt o_eff)) shapes = Some (nops, nout) /\
+    (In IE o_eff -> In IE (concat inputs))).
+  { destruct out as [o|].
+    - destruct (np_sublist o) as [ot|] eqn:Eo; [|discriminate].
+      destruct (np_sublist_spec _ _ Eo) as [-> _]. exists o. auto.
+    - exists (interleaved_sorted_output inputs). split; [reflexivity|]. split.
+      + rewrite (computed_output_is_numpys inputs L). apply np_core_implicit_explicit. exact Hnp.
+      + apply IE_in_computed_output. }
+  destruct Heff as [o_eff [Eeff [Hcore HIE']]]. clear Hnp HIE.
+  set (sm := get_symbol_map inputs).
+  destruct (get_symbol_map_spec inputs) as [c [W K]]. fold sm in W, K.
+  (* every label of the output is known to the symbol map, and is below 52 *)
+  assert (Hout : forall x, In x o_eff -> In x (map fst sm) /\ match x with IL k => k < 52 | IE => True end).
+  { intros [k|] Hx.
+    - pose proof (np_core_output_letters _ _ _ _ Hcore (letter k) (in_letters_of_nt o_eff k Hx)) as Hc.
+      rewrite letters_of_concat, <- concat_map in Hc.
+      destruct (in_letters_nt _ _ Hc) as [k' [E Hk']].
+      assert (k' < 52) by (apply L; exact Hk'). apply letter_eq_bounded in E; [|assumption]. subst k'.
+      split; [apply K; exact Hk'|assumption].
+    - split; [apply K, HIE'; exact Hx|exact I]. }
+  assert (Lo : labels_ok o_eff) by (intros k Hk; apply (Hout (IL k) Hk)).
+  (* the equation string the model builds *)
+  set (mops := map (map (mtok sm)) inputs). set (mo := map (mtok sm) o_eff).
+  assert (Econv : convert_from_interleaved_v true inputs out = Some (unlex (tjoin mops ++ TArrow :: mo))).
+  { unfold convert_from_interleaved_v. fold sm.
+    rewrite (sm_terms_unlex sm c inputs W) by (intros x Hx; apply K; exact Hx). fold mops.
+    rewrite Eeff. rewrite (sm_term_unlex sm c o_eff W) by (intros x Hx; apply Hout; exact Hx). fold mo.
+    rewrite unlex_app, unlex_cons, unlex_tjoin. reflexivity. }
+  exists (unlex (tjoin mops ++ TArrow :: mo)). split; [exact Econv|].
+  (* token facts *)
+  assert (Kops : forall p t, In p mops -> In t p -> tok_ok t /\ is_arrow t = false /\ is_comma t = false).
+  { intros p t Hp Ht. unfold mops in Hp. apply in_map_iff in Hp. destruct Hp as [term [<- Hterm]].
+    apply in_map_iff in Ht. destruct Ht as [x [<- Hx]]. split; [|apply mtok_not_sep].
+    apply (mtok_ok sm c x W). apply K. apply in_concat. eauto. }
+  assert (Kmo : Forall tok_ok mo /\ forall t, In t mo -> is_arrow t = false).
+  { split; [apply Forall_forall|]; intros t Ht; unfold mo in Ht; apply in_map_iff in Ht;
+      destruct Ht as [x [<- Hx]]; [apply (mtok_ok sm c x W), Hout, Hx|apply mtok_not_sep]. }
+  assert (Klhs : Forall tok_ok (tjoin mops) /\ Forall lhs_tok (tjoin mops)).
+  { clear - Kops. induction mops as [|p [|q r] IH].
+    - split; constructor.
+    - cbn [tjoin]. split; apply Forall_forall; intros t Ht; destruct (Kops p t (or_introl eq_refl) Ht) as [A [B _]]; [exact A|].
+      destruct t; try exact I. discriminate B.
+    - change (tjoin (p :: q :: r)) with (p ++ TComma :: tjoin (q :: r)).
+      destruct IH as [I1 I2]; [intros; apply (Kops p0 t); [right|]; assumption|].
+      split; apply Forall_app; split; try (constructor; [exact I|assumption]);
+        apply Forall_forall; intros t Ht; destruct (Kops p t (or_introl eq_refl) Ht) as [A [B _]]; [exact A|].
+      destruct t; try exact I. discriminate B. }
+  destruct Klhs as [Klhs1 Klhs2]. destruct Kmo as [Kmo1 Kmo2].
+  assert (Hne : mops <> []).
+  { unfold mops, inputs. destruct ops; [cbn in Elen; lia|discriminate]. }
+  assert (Hsplit : tsplit is_comma (tjoin mops) = mops).
+  { apply tsplit_tjoin; [exact Hne|]. intros p t Hp Ht. apply (Kops p t Hp Ht). }
+  (* numpy's verdict on the model's tokens *)
+  set (tau := inter_letter_to_sym inputs).
+  assert (Hmops : mops = map (map (tmap tau)) (map (map nt) inputs)).
+  { unfold mops. rewrite map_map. apply map_ext_in. intros term Hterm.
+    apply mtok_is_tmap. intros k Hk. apply L. apply in_concat. eauto. }
+  assert (Hmo : mo = map (tmap tau) (map nt o_eff)) by (apply mtok_is_tmap; exact Lo).
+  assert (Hinj : forall x y, In x (concat (map letters_of (map (map nt) inputs))) ->
+                             In y (concat (map letters_of (map (map nt) inputs))) -> tau x = tau y -> x = y).
+  { intros x y Hx Hy. rewrite letters_of_concat, <- concat_map in Hx, Hy.
+    destruct (in_letters_nt _ _ Hx) as [k1 [-> H1]]. destruct (in_letters_nt _ _ Hy) as [k2 [-> H2]].
+    unfold tau. rewrite !tau_is_sigma by (apply L; assumption). intro E. f_equal.
+    apply (sigma_inj sm c); auto; apply K; assumption. }
+  pose proof (np_core_relabel tau _ _ _ _ _ Hinj Hcore) as Hcore'.
+  rewrite <- Hmops, <- Hmo, <- Hsplit in Hcore'.
+  (* run the model's parser on the string *)
+  assert (Ktoks : Forall tok_ok (tjoin mops ++ TArrow :: mo)).
+  { apply Forall_app. split; [exact Klhs1|constructor; [exact I|exact Kmo1]]. }
+  assert (Hsa : tsplit is_arrow (tjoin mops ++ TArrow :: mo) = [tjoin mops; mo]).
+  { rewrite tsplit_app_sep; [|intros t Ht; rewrite Forall_forall in Klhs2; specialize (Klhs2 t Ht); destruct t; try reflexivity; contradiction|reflexivity].
+    rewrite tsplit_nosep by exact Kmo2. reflexivity. }
+  cbn zeta. unfold parse_equation_ellipses_v, model_ellipses_inds.
+  rewrite (split_arrow_unlex _ Ktoks), Hsa. cbn [map hd tl].
+  pose proof (core_matches_numpy (tjoin mops) (Some mo) shapes _ _ Klhs1 Klhs2 Kmo1 Hcore') as HC.
+  cbn zeta in HC. fold shapes.
+  etransitivity; [exact HC|]. f_equal. f_equal.
+  - rewrite map_map. apply map_ext. intro t. rewrite map_map. apply map_ext. intro l0.
+    symmetry. apply rho_args_inter.
+  - rewrite map_map. apply map_ext. intro l0. symmetry. apply rho_args_inter.
+Qed.
+
+Theorem inter_agrees_with_numpy fx ops out :
+  fx_inter fx = true -> fx_outell fx = true ->
+  (match out with Some o => In IE o -> In IE (concat (map snd ops)) | None => True end) ->
+  agrees_args_v fx (AInter ops out) = match np_parse_inter ops out with Some _ => Some true | None => None end.
+Proof.
+  intros F1 F2 HIE. unfold agrees_args_v. cbn [np_parse_args einsum_eq_v eargs_shapes]. rewrite F1, F2.
+  destruct (np_parse_inter ops out) as [[nops nout]|] eqn:P; [|reflexivity].
+  destruct (inter_matches_numpy ops out nops nout P HIE) as [eq [E1 E2]]. cbn zeta in E2.
+  rewrite E1, E2, ops_eqb_refl. reflexivity.
 Qed.
 
 (* ------------------------------------------------------------------ *)
